@@ -81,6 +81,16 @@ CHECKS.update({
    note="Stub proposal/kernel/model; one file, two live instances, sequences up to 8 operations; a refit between resume_from_file and its first sample_posterior is not generated (caller mixing proposals in memory)."),
 })
 
+
+CHECKS.update({
+ "C01": dict(level="exploration", ref="DESIGN.md section 4 C01", technique="deterministic simulation: seeded replicate ensembles of whole runs per configuration cell, statistical oracle (6 sigma + stated allowance) against closed-form evidence and posterior moments",
+   text="Each cell (target x sampler x preconditioning x proposal tightness x namespace) is run as R seeded replicates of the whole pipeline (fit, sample_posterior) with the stub kernel and the exact-density stub proposal; the replicate mean of Z_hat/Z and the pooled posterior mean/variance (circular moments on periodic dimensions) must match the closed forms within 6 standard errors plus a stated finite-N allowance (zero for the evidence in exact cells: importance sampling and fixed-schedule SMC with a population-independent kernel). Bounds were frozen after a multi-seed calibration on the repaired tree.",
+   note="Stub kernels: decided for aspire's side of the kernel contract. Small biases below the allowances are not detectable. One known finding (SMC evidence = Z/A over a leaky proposal) is listed in known_findings.json."),
+ "C03": dict(level="exploration", ref="DESIGN.md section 4 C03", technique="deterministic simulation: invariants at the proposal seam on real zuko/flowjax flows incl. restart (save/load), normalisation decided by a seeded importance-sampling ensemble with L == 1 and a closed-form normalised prior",
+   text="For real ZukoFlow / FlowJax objects with the repo's FlowTransform (logit/probit/off x affine on/off x float32/float64 x untrained/trained): log_prob(x) == log_q on every drawn batch, draws inside declared bounds, the flow reloaded from HDF5 reproduces log_prob on the recorded draws, and E[Z_hat] = 1 over seeded replicates of Aspire importance sampling against a normalised lighter-tailed prior (any missing or sign-flipped Jacobian term shifts log Z_hat by O(1)).",
+   note="Normalisation errors below a few percent are not detectable by this oracle (a quadrature would be sharper but is pure numerical analysis, outside this family). torch float64 judged at 1e-6 (observation in DESIGN.md section 7)."),
+})
+
 NOT_APPLICABLE = [
   {"property_id": "C02", "reason": "pure function of one array triple (weights/evidence/ESS formulas): no schedule, storage, randomness, interruption or second party for a simulator to control; see DESIGN.md section 5"},
   {"property_id": "C04", "reason": "pure mathematical map per transform configuration, quantified over inputs only: nothing a crash, seed or operation order can decide; see DESIGN.md section 5"},
